@@ -78,7 +78,7 @@ CLAIMED = {
        'round by round with the model.',
   ref='6/C13', technique='Lean 4 proof (grouping lemmas, case analysis over attempt outcomes) + differential correspondence vs real Queue/Bounce histories'),
  'C03': dict(
-  text='PARTIAL (storage calls atomic inside a section, spawns that may wait for a slot of a bounded pool, calm announcements). Over the composed queue machine (Model/QueueM.lean, see C01) for every interleaving: handoff_is_for_the_unsettled (whenever a step hands a message to the relay — enqueue\'s own hand-off or a _dequeue task, whatever caused it — the recipients of that attempt are exactly the outstanding ones and none of them was reported delivered or failed for good before) and one_attempt_in_flight_composed. Sequential theorems over Model/Attempt.lean + Model/Store.lean: for every valid '
+  text='PARTIAL (storage calls atomic inside a section, spawns that may wait for a slot of a bounded pool, calm announcements). Over the composed queue machine (Model/QueueM.lean, see C01) for every interleaving: handoff_is_for_the_unsettled (whenever a step hands a message to the relay — enqueue\'s own hand-off or a _dequeue task, whatever caused it — the recipients of that attempt are exactly the outstanding ones and none of them was reported delivered or failed for good before) and one_attempt_in_flight_composed; handed_within_accepted (every hand-off ever made, of any message, was for recipients among those the message was accepted with) and restart_never_reattempts_delivered (C03 o C04: the machine started on what a fresh DiskStorage recovers — pickled recipients with the delivered rounds replayed — never hands anybody to the relay whom the storage showed as delivered before the crash). Sequential theorems over Model/Attempt.lean + Model/Store.lean: for every valid '
        'history of delivery attempts (any rounds, recipients, outcomes, backoff) a recipient reported delivered or permanently failed is in no '
        'later attempt; the next attempt is made for exactly the transiently refused recipients; the accumulating index representation of '
        'disk/redis/cloud agrees with the reference store over any number of marking rounds. The real Queue is driven through exhaustive '
@@ -89,7 +89,7 @@ CLAIMED = {
   ref='6/C03', technique='Lean 4 proof (conservation/counting invariant over attempt histories, store refinement) + differential correspondence vs real Queue on 4 backends',
   note='Partial: the interleaving theorem is about the scheduler model of C12 (bounded pools included) under the Calm assumption.'),
  'C01': dict(
-  text='PARTIAL (calm environment of C12; storage calls atomic inside a section; bounded pools: the safety statements hold, the stall is a known finding; liveness is stated as: never without a next step). The ledger and the scheduler are ONE transition system now (Model/QueueM.lean: the scheduler state of Model/Sched.lean + what the storage holds for every message + every attempt\'s envelope + the verdict of _attempt + bounces + a ghost ledger; a step of it IS a step of the scheduler model, its two-phase attempt IS Attempt.attempt: step_sched, phases_eq_attempt). Over it, for every interleaving of enqueues, announcements, ticks, scheduler turns, _dequeue tasks, relay answers of any shape, backoff answers, re-queues, removals and flushes: one_disposition (every accepted recipient is counted exactly once in delivered / failed for good / outstanding, in every reachable state), accepted_never_lost (delivered, or failed and named in a bounce quoting its reply when a bounce is produced, or outstanding in a message that is still stored and handed off / in flight / finishing / dequeuing / in the timetable with the loop due to wake by its time), removed_means_final. The relay contract assumed there is met by the relay models (relay_contract_met, with C11\'s attempt_answers_everyone and sequence_complete). The sequential theorems over Model/Attempt.lean remain: for every attempt outcome and every history each accepted recipient '
+  text='PARTIAL (calm environment of C12; storage calls atomic inside a section; bounded pools: the safety statements hold, the stall is a known finding; liveness is stated as: never without a next step). The ledger and the scheduler are ONE transition system now (Model/QueueM.lean: the scheduler state of Model/Sched.lean + what the storage holds for every message + every attempt\'s envelope + the verdict of _attempt + bounces + a ghost ledger; a step of it IS a step of the scheduler model, its two-phase attempt IS Attempt.attempt: step_sched, phases_eq_attempt). Over it, for every interleaving of enqueues, announcements, ticks, scheduler turns, _dequeue tasks, relay answers of any shape, backoff answers, re-queues, removals and flushes: one_disposition (every accepted recipient is counted exactly once in delivered / failed for good / outstanding, in every reachable state), accepted_never_lost (delivered, or failed and named in a bounce quoting its reply when a bounce is produced, or outstanding in a message that is still stored and handed off / in flight / finishing / dequeuing / in the timetable with the loop due to wake by its time), removed_means_final; attempt_numbers_count_up (the k-th hand-off of a message to the relay carries attempts = k: 0, 1, 2, ... oldest first, none skipped, none twice), stored_attempts_is_handoffs, attempts_need_backoff and attempts_bounded (in histories where _retry_later gets the backoff function\'s answer for the incremented counter a message is attempted for the a-th time only if the backoff function allowed it, so a backoff that gives up after N bounds the attempts on every message by N + 1 — with accepted_never_lost the measure under which every recipient reaches delivered or failed for good). The relay contract assumed there is met by the relay models (relay_contract_met, with C11\'s attempt_answers_everyone and sequence_complete). The sequential theorems over Model/Attempt.lean remain: for every attempt outcome and every history each accepted recipient '
        'is exactly one of delivered / failed for good / still stored; the message is removed only when nobody is outstanding; when the backoff '
        'returns None everybody outstanding is failed; failed recipients of a non-null-sender message are named in a bounce (with C13). The real Queue '
        'is driven through seeded histories mixing None/Reply, mapping, sequence, Transient, Permanent and unexpected exceptions on dict, disk, redis and '
@@ -112,7 +112,9 @@ CLAIMED = {
        'started on what a fresh DiskStorage loads from the directories after the crash finds the message, its announcement is a step of the scheduler '
        'model of C12, and after it the message is known, stored and in the timetable with the loop due to wake); restarted_queue_never_loses (C04 o C01: the '
        'composed queue machine started on the recovered ids, due times and not-yet-delivered recipients keeps every recipient the acknowledged message still '
-       'lists in exactly one of delivered / failed for good / outstanding with a next step, in every reachable state). Tied to the code by interposing os.rename/os.remove/mkstemp/chunk '
+       'lists in exactly one of delivered / failed for good / outstanding with a next step, in every reachable state); restarted_queue_continues_the_count (the '
+       'hand-offs of a recovered message carry the recovered attempt counter, then counter + 1, ...). At every crash snapshot the campaign also starts a real Queue on the '
+       'directories and requires every recovered message to be handed to the relay once, with the stored recipients and counter. Tied to the code by interposing os.rename/os.remove/mkstemp/chunk '
        'writes of the real DiskStorage (real pyaio), copying the directories at EVERY effect boundary of every operation (also with two operations '
        'running concurrently) and reopening each copy with a fresh DiskStorage (load + get), compared with the model and monitored directly.',
   ref='6/C04', technique='Lean 4 proof (file-system effect prefixes, frame lemmas) + crash-point enumeration of the real DiskStorage vs the model',
